@@ -163,6 +163,7 @@ type c17Plan struct {
 	Series       int      `json:"series"`
 	Points       int      `json:"points"`
 	Shutdown     bool     `json:"shutdown_at_end"`
+	Early        bool     `json:"shutdown_with_backlog"` // shut down right after the last hand-off instead of after the backlog drained
 	Burst        bool     `json:"burst_with_frozen_server"`
 }
 
@@ -185,6 +186,7 @@ func scenC17(x *Exec) {
 	p.Points = 20 + g.Intn(150)
 	p.Shutdown = g.Bool(0.5)
 	p.Burst = !p.Blocking && g.Bool(0.4)
+	p.Early = p.Shutdown && g.Bool(0.5)
 	x.Out.Sample = p
 	cfg.Horizon = 6 * time.Hour
 	prop := "C17"
@@ -291,12 +293,16 @@ func scenC17(x *Exec) {
 			}
 			return m
 		}
-		deadline := time.Now().Add(time.Duration(len(p.Script)+5)*(35*time.Second+time.Duration(p.TimeoutMs)*time.Millisecond) + 2*time.Minute)
-		for time.Now().Before(deadline) {
+		bound := time.Duration(len(p.Script)+5)*(35*time.Second+time.Duration(p.TimeoutMs)*time.Millisecond) + 2*time.Minute
+		deadline := time.Now().Add(bound)
+		for !p.Early && time.Now().Before(deadline) {
 			if len(ackedSet()) >= accepted {
 				break
 			}
 			simrt.Sleep(500 * time.Millisecond)
+		}
+		if p.Early && len(ackedSet()) < accepted {
+			s.Probe("c17.shutdown_with_backlog")
 		}
 		if p.Shutdown {
 			done := false
@@ -306,8 +312,8 @@ func scenC17(x *Exec) {
 				done = true
 				cond.Broadcast()
 			})
-			if !cond.Wait(func() bool { return done }, time.Now().Add(10*time.Minute)) {
-				s.Fail(prop+":shutdown-hangs", "Route.Shutdown() did not return within 10 simulated minutes (concurrency %d)\n%s", p.Concurrency, s.Describe())
+			if !cond.Wait(func() bool { return done }, time.Now().Add(bound+10*time.Minute)) {
+				s.Fail(prop+":shutdown-hangs", "Route.Shutdown() did not return within %v simulated time after the last fault (concurrency %d)\n%s", bound+10*time.Minute, p.Concurrency, s.Describe())
 				return
 			}
 			s.Probe("c17.shutdown_returned")
